@@ -52,7 +52,7 @@ class Ctx:
             while n is not None and not isinstance(n, ast.Module):
                 n = getattr(n, "_parent", None)
             file = getattr(n, "_path", "?") if n is not None else "?"
-        return file, q or "<module>", getattr(node, "lineno", 0)
+        return file, q or "<module>", getattr(node, "_orig_lineno", getattr(node, "lineno", 0))
 
     def ob(self, rule, node, what, ok, detail="", inst=None, file=None, qualname=None, line=None):
         """Record one obligation instance.  `node` is the protected construct (AST node) or None
